@@ -191,3 +191,23 @@ def numeric_text_rewrites_preserve_values(ctx):
                               'the text rewrite %r -> %r %s' % (o, w, 'changes the number' if not same else
                                                                  'is not anchored at a token boundary: it also rewrites the inside of longer literals (10.05 -> 1.05)'), f, c)
     ctx.need(n >= 10, 'expected >= 10 numeric text rewrites, found %d' % n)
+
+
+@rule('C12.f', min_instances=2)
+def systems_are_merged_as_conjunctions(ctx):
+    """the lines of one system all hold at once, so wherever simplify / absval merge the bounds of a system they use the exclusive table of merge (inclusive=False: 'A >= 0' with 'A <= 0' is 'A = 0', contradictory bounds give None); the inclusive table is the table of alternatives - it drops such a pair, which widens the solution set"""
+    m = ctx.model.modules['mystic.symbolic']
+    target = ctx.func(SY + ':merge')
+    n = 0
+    for q, fi in sorted(m.funcs.items()):
+        if fi is target:
+            continue
+        for c in calls_where(fi.node, lambda c: isinstance(c.func, ast.Name) and c.func.id == 'merge', include_lambda=True):
+            n += 1
+            ctx.touch(fi)
+            v = kwarg(c, 'inclusive', None)
+            ok_ = v is not None and const_value(v) is False
+            ctx.check(ok_, '%s#merge' % fi.qualname, 'merge(..., inclusive=False)',
+                      '%s merges the lines of a system with the table of alternatives (inclusive=%s): a pair such as x0 >= 2, x0 <= 2 is dropped instead of becoming x0 = 2, so the result holds at points where the input does not'
+                      % (fi.qualname, unparse(v) if v is not None else 'True by default'), fi, enclosing_stmt(c))
+    ctx.need(n >= 2, 'expected >= 2 calls of merge in mystic.symbolic, found %d' % n)
